@@ -9,29 +9,195 @@ import EspadaVerif.Props.C13
 namespace EspadaVerif.Lemmas
 open EspadaVerif Spec Kernel
 
+private theorem suitU8_lt (s : Nat) (h : s < 4) : suitU8 s = s := C13.suit_numbering.2.1 s h
+private theorem rankU8_lt (r : Nat) (h : r < 13) : rankU8 r = r := C13.rank_numbering.2.1 r h
+private theorem thr : Gen.flushThreshold = 5 := by decide
+
+private theorem getD_set_succ (counts : List Nat) (i s : Nat) (hi : i < counts.length) :
+    (counts.set i (counts.getD i 0 + 1)).getD s 0 = counts.getD s 0 + if i = s then 1 else 0 := by
+  simp only [List.getD_eq_getElem?_getD, List.getElem?_set]
+  split
+  · subst_vars; simp [hi]
+  · simp
+
+private theorem ffs_aux (rest : List Card) (hv : ∀ c ∈ rest, c.valid = true) :
+    ∀ counts : List Nat, counts.length = 4 → (∀ i, counts.getD i 0 < 5) →
+    (∃ s, s < 4 ∧ 5 ≤ counts.getD s 0 + rest.countP (fun x => x.suit == s)
+        ∧ ffsLoop counts rest = .ok (some s))
+    ∨ ((∀ s, counts.getD s 0 + rest.countP (fun x => x.suit == s) < 5)
+        ∧ ffsLoop counts rest = .ok none) := by
+  induction rest with
+  | nil =>
+    intro counts hl hc
+    right
+    exact ⟨fun s => by simpa using hc s, rfl⟩
+  | cons x rest ih =>
+    intro counts hl hc
+    have hx := hv x (by simp)
+    simp only [Card.valid, Bool.and_eq_true, decide_eq_true_eq] at hx
+    have ih := ih (fun c hc => hv c (List.mem_cons_of_mem _ hc))
+    have hget : counts[x.suit]? = some (counts.getD x.suit 0) := by
+      simp [List.getD_eq_getElem?_getD, List.getElem?_eq_getElem (show x.suit < counts.length by omega)]
+    simp only [ffsLoop, suitU8_lt _ hx.2, thr, hget, List.countP_cons]
+    split
+    · left
+      refine ⟨_, hx.2, ?_, rfl⟩
+      simp only [beq_self_eq_true, if_true]
+      omega
+    · rename_i hlt
+      have hstep := fun s => getD_set_succ counts x.suit s (by omega)
+      have hc' : ∀ i, (counts.set x.suit (counts.getD x.suit 0 + 1)).getD i 0 < 5 := by
+        intro i
+        rw [hstep]
+        have := hc i
+        split
+        · subst_vars; omega
+        · omega
+      rcases ih _ (by simpa using hl) hc' with ⟨s, hs, h5, he⟩ | ⟨hall, he⟩
+      · left
+        refine ⟨s, hs, ?_, he⟩
+        rw [hstep] at h5
+        simp only [beq_iff_eq]
+        omega
+      · right
+        refine ⟨fun s => ?_, he⟩
+        have := hall s
+        rw [hstep] at this
+        simp only [beq_iff_eq]
+        omega
+
+set_option linter.unusedVariables false in
 theorem findFlushSuit_spec (cs : List Card) (hv : ∀ c ∈ cs, c.valid = true) (hlen : cs.length ≤ 9) :
     (∃ s, s < 4 ∧ 5 ≤ cs.countP (fun c => c.suit == s) ∧ findFlushSuit cs = .ok (some s))
     ∨ ((∀ s, cs.countP (fun c => c.suit == s) < 5) ∧ findFlushSuit cs = .ok none) := by
-  sorry
+  have h := ffs_aux cs hv [0, 0, 0, 0] rfl (by
+    intro i
+    match i with
+    | 0 | 1 | 2 | 3 | i + 4 => simp)
+  have h0 : ∀ s, [0, 0, 0, 0].getD s 0 = 0 := by
+    intro i
+    match i with
+    | 0 | 1 | 2 | 3 | i + 4 => simp
+  simpa only [h0, Nat.zero_add, findFlushSuit] using h
+
+private theorem hashFlush_aux (cs : List Card) (s : Nat) : ∀ acc : Nat,
+    cs.foldl (fun h c => if c.suit = s then h + Gen.flushWeightTbl.getD c.rank 0 else h) acc
+      = acc + flushHash ((cs.filter (fun c => c.suit == s)).map (·.rank)) := by
+  induction cs with
+  | nil => intro acc; simp [flushHash]
+  | cons x cs ih =>
+    intro acc
+    rw [List.foldl_cons, ih]
+    by_cases hx : x.suit = s
+    · simp [hx, flushHash]
+      omega
+    · simp [hx, flushHash]
 
 theorem hashFlush_eq (cs : List Card) (s : Nat) :
     hashFlush cs s = flushHash ((cs.filter (fun c => c.suit == s)).map (·.rank)) := by
-  sorry
+  simpa [hashFlush] using hashFlush_aux cs s 0
 
-theorem flushHash_perm {rs₁ rs₂ : List Nat} (h : rs₁.Perm rs₂) : flushHash rs₁ = flushHash rs₂ := by
-  sorry
+theorem flushHash_perm {rs₁ rs₂ : List Nat} (h : rs₁.Perm rs₂) : flushHash rs₁ = flushHash rs₂ :=
+  (h.map _).sum_nat
+
+private theorem rankCounts_eq (rs : List Nat) (hv : ∀ r ∈ rs, r < 13) :
+    ∀ counts : List Nat, counts.length = 13 →
+    rankCounts counts rs = .ok ((List.range 13).map (fun i => counts.getD i 0 + rs.count i)) := by
+  induction rs with
+  | nil =>
+    intro counts hl
+    simp only [rankCounts, List.count_nil, Nat.add_zero]
+    congr 1
+    apply List.ext_getElem
+    · simp [hl]
+    · intro i h1 h2
+      simp [List.getD_eq_getElem?_getD, h1]
+  | cons r rs ih =>
+    intro counts hl
+    have hr : r < 13 := hv r (by simp)
+    have ih := ih (fun c hc => hv c (List.mem_cons_of_mem _ hc))
+    have hget : counts[r]? = some (counts.getD r 0) := by
+      simp [List.getD_eq_getElem?_getD, List.getElem?_eq_getElem (show r < counts.length by omega)]
+    simp only [rankCounts, rankU8_lt _ hr, hget]
+    rw [ih _ (by simpa using hl)]
+    congr 1
+    apply List.map_congr_left
+    intro i _
+    rw [getD_set_succ counts r i (by omega), List.count_cons]
+    simp only [beq_iff_eq]
+    omega
 
 theorem hashRanks_perm {rs₁ rs₂ : List Nat} (h : rs₁.Perm rs₂) (hv : ∀ r ∈ rs₁, r < 13) :
     hashRanks rs₁ = hashRanks rs₂ := by
-  sorry
+  have hv₂ : ∀ r ∈ rs₂, r < 13 := fun r hr => hv r (h.mem_iff.mpr hr)
+  simp only [hashRanks, rankCounts_eq rs₁ hv _ (List.length_replicate ..),
+    rankCounts_eq rs₂ hv₂ _ (List.length_replicate ..), h.length_eq, h.count_eq]
+
+private theorem countP_suit_add_le (l : List Card) (s t : Nat) (hne : s ≠ t) :
+    l.countP (fun c => c.suit == s) + l.countP (fun c => c.suit == t) ≤ l.length := by
+  induction l with
+  | nil => simp
+  | cons x l ih =>
+    simp only [List.countP_cons, List.length_cons, beq_iff_eq]
+    split <;> split <;> omega
 
 /-- the evaluation does not depend on the order in which the (at most nine) cards are presented -/
 theorem eval7_perm {cs₁ cs₂ : List Card} (h : cs₁.Perm cs₂) (hv : ∀ c ∈ cs₁, c.valid = true)
     (hlen : cs₁.length ≤ 9) : eval7 cs₁ = eval7 cs₂ := by
-  sorry
+  have hv₂ : ∀ c ∈ cs₂, c.valid = true := fun c hc => hv c (h.mem_iff.mpr hc)
+  have hlen₂ : cs₂.length ≤ 9 := h.length_eq ▸ hlen
+  have hcnt : ∀ s, cs₂.countP (fun c => c.suit == s) = cs₁.countP (fun c => c.suit == s) :=
+    fun s => (h.countP_eq _).symm
+  rcases findFlushSuit_spec cs₁ hv hlen with ⟨s, hs, h5, he⟩ | ⟨hall, he⟩
+  · rcases findFlushSuit_spec cs₂ hv₂ hlen₂ with ⟨t, ht, h5', he'⟩ | ⟨hall', he'⟩
+    · rw [hcnt] at h5'
+      have hst : s = t := by
+        by_cases hst : s = t
+        · exact hst
+        · have := countP_suit_add_le cs₁ s t hst
+          omega
+      subst hst
+      simp only [eval7, he, he', hashFlush_eq]
+      rw [flushHash_perm ((h.filter _).map _)]
+    · have := hall' s
+      rw [hcnt] at this
+      omega
+  · rcases findFlushSuit_spec cs₂ hv₂ hlen₂ with ⟨t, ht, h5', he'⟩ | ⟨hall', he'⟩
+    · have := hall t
+      rw [hcnt] at h5'
+      omega
+    · have hr : ∀ r ∈ cs₁.map (·.rank), r < 13 := by
+        intro r hr
+        obtain ⟨c, hc, rfl⟩ := List.mem_map.mp hr
+        have := hv c hc
+        simp only [Card.valid, Bool.and_eq_true, decide_eq_true_eq] at this
+        exact this.1
+      simp only [eval7, he, he', hashRainbow]
+      rw [hashRanks_perm (h.map _) hr]
 
 theorem count_rank_le_four (cs : List Card) (hnd : cs.Nodup) (hv : ∀ c ∈ cs, c.valid = true) (r : Nat) :
     (cs.map (·.rank)).count r ≤ 4 := by
-  sorry
+  have hcount : (cs.map (·.rank)).count r = ((cs.filter (fun c => c.rank == r)).map (·.suit)).length := by
+    rw [List.count_eq_countP, List.countP_map, List.countP_eq_length_filter, List.length_map]
+    rfl
+  have hnd' : ((cs.filter (fun c => c.rank == r)).map (·.suit)).Nodup := by
+    rw [List.nodup_iff_pairwise_ne, List.pairwise_map, List.pairwise_filter]
+    refine hnd.imp ?_
+    intro a b hab ha hb hs
+    apply hab
+    obtain ⟨ra, sa⟩ := a
+    obtain ⟨rb, sb⟩ := b
+    simp only [beq_iff_eq] at ha hb hs
+    subst ha hb hs
+    rfl
+  have hsub : ((cs.filter (fun c => c.rank == r)).map (·.suit)) ⊆ List.range 4 := by
+    intro s hs
+    obtain ⟨c, hc, rfl⟩ := List.mem_map.mp hs
+    have := hv c (List.mem_filter.mp hc).1
+    simp only [Card.valid, Bool.and_eq_true, decide_eq_true_eq] at this
+    exact List.mem_range.mpr this.2
+  have := hnd'.length_le_of_subset hsub
+  rw [hcount]
+  simpa using this
 
 end EspadaVerif.Lemmas
